@@ -639,3 +639,38 @@ Example ex_reverse :
               [Ed [88]%N 0 [89]%N 0 Und []; Ed [89]%N (-1) [88]%N (-1) Und []] [])
   = Err EReverse.
 Proof. vm_compute; reflexivity. Qed.
+
+(** * adjacency_matrices (statement only; pinned on [ex_g] below)
+
+    [adj_matrices g] is the template set of [g] written as one matrix per source lag: the keys
+    are the source lags of the minimal edges, and cell (i, j) of the matrix of lag [k] is set
+    exactly when a minimal edge with source lag [k] goes from the i-th to the j-th variable (or,
+    for an undirected edge, from the j-th to the i-th). *)
+Definition cell (mx : matrix) (i j : nat) : bool :=
+  match nth_error mx i with
+  | Some row => match nth_error row j with Some c => c | None => false end
+  | None => false
+  end.
+Definition adj_matrices_statement : Prop :=
+  forall g m d, consistent g -> minimal g = Ok m ->
+    (forall e, In e (tedges m) -> ety e = Dir \/ ety e = Und) ->
+    adj_matrices g = Ok d ->
+    NoDup (map fst d)
+    /\ (forall k, In k (map fst d) <-> exists e, In e (tedges m) /\ esl e = k)
+    /\ (forall k mx i j, In (k, mx) d ->
+          (cell mx i j = true <->
+           exists e, In e (tedges m) /\ esl e = k /\
+             ((index_of (es e) (variables m) = Some i /\ index_of (ed e) (variables m) = Some j)
+              \/ (ety e = Und /\ index_of (es e) (variables m) = Some j
+                               /\ index_of (ed e) (variables m) = Some i)))).
+
+(** Python: ex_g.adjacency_matrices (variables W, X, Y, Z): lag -1 and lag 0. *)
+Example ex_g_adj :
+  adj_matrices ex_g = Ok [((-1)%Z, [[false; false; true; false]; [false; true; true; false]; [false; true; false; false]; [false; false; false; false]]); ((0)%Z, [[false; false; false; false]; [false; false; true; false]; [false; false; false; false]; [false; false; false; false]])].
+Proof. vm_compute; reflexivity. Qed.
+
+(** a bi-directed edge makes adjacency_matrices raise TypeError *)
+Example ex_adj_type :
+  adj_matrices (Gr [Nd [88]%N 0 VUnspec []; Nd [89]%N 0 VUnspec []]
+                   [Ed [88]%N 0 [89]%N 0 Bi []] []) = Err EType.
+Proof. vm_compute; reflexivity. Qed.
